@@ -53,7 +53,7 @@ STRUCTURE_FAMILIES = ["method_name_clash", "names_body_idents", "mock_name_twice
                       "names_distinct", "fields_distinct", "names_tparams", "names_shadow_types", "names_qualifiers"]
 
 PROPS = {
-    "C01": dict(kind="gen", files=["P_C01.v", "GoTypes_Proofs.v", "Registry_Proofs.v", "P_C11.v"], theorems=[thm("C01_walk_visits_what_is_printed", "P_C01"), thm("populate_covers", "P_C01"), thm("C01_import_paths_sound", "P_C01"), thm("C01_refuted", "P_C01"), thm("C01_tparam_fixed", "P_C01"), thm("rest_region_closed", "TmplRegion_rest"), thm("refs_eq_mentions_refuted", "GoTypes_Proofs")], oracle=O.o_c01, known=ALL_FAMILIES),
+    "C01": dict(kind="gen", files=["P_C01.v", "GoTypes_Proofs.v", "Registry_Proofs.v", "P_C11.v"], theorems=[thm("C01_walk_visits_what_is_printed", "P_C01"), thm("populate_covers", "P_C01"), thm("C01_import_paths_sound", "P_C01"), thm("C01_refuted", "P_C01"), thm("C01_tparam_fixed", "P_C01"), thm("rest_region_closed", "TmplRegion_rest"), thm("refs_eq_mentions_fixed", "GoTypes_Proofs")], oracle=O.o_c01, known=ALL_FAMILIES),
     "C02": dict(kind="gen", files=["P_C02.v", "P_C20.v"], theorems=[thm("C02_method_signature", "P_C02"), thm("C02_func_field_same_strings", "P_C02"), thm("C02_variadic_spelling", "P_C02"), thm("C02_method_arg", "P_C02")], oracle=O.o_c02,
                 known=["unexported_foreign", "not_a_method_set_interface", "method_name_clash", "mock_name_twice",
                        ]),
